@@ -19,6 +19,7 @@ VT = _LT[P.get("vleaf", "int")]
 
 DOCKIND = P.get("doc", 0)
 KEYS = ["c", "d", ""]
+SV = ["ab", "a", "", "b"]
 
 
 def mkdoc(l0: Any, l1: Any, l2: Any, l3: Any, n: int) -> Any:
@@ -39,7 +40,7 @@ def mkdoc(l0: Any, l1: Any, l2: Any, l3: Any, n: int) -> Any:
         arr.append(l1)
     if n >= 3:
         arr.append(l2)
-    return {"a": arr, "b": {"c": l3, "1": [l0]}, "1": l1}
+    return {"a": arr, "b": {"c": l3, "1": [l0]}, "1": l1, "ab": {"z": l2}}
 
 
 def _subst(x: Any, i: int, j: int, v: Any, w: Any) -> Any:
@@ -57,6 +58,10 @@ def _subst(x: Any, i: int, j: int, v: Any, w: Any) -> Any:
         return w
     if x == "$vc":
         return [v, {"k": w}]
+    if x == "$sv":  # a string ...
+        return pick(SV, (i if isinstance(i, int) else 0) % len(SV))
+    if x == "$cv":  # ... and an array of one-character strings
+        return [c for c in pick(SV, (j if isinstance(j, int) else 0) % len(SV))]
     if x == "$is":  # the same index, spelled as a string token (the route JSONPointer.from_parts takes)
         return pick(["0", "1", "2", "3", "4", "5"], i) if isinstance(i, int) else "0"
     if x == "$ki":
